@@ -249,5 +249,43 @@ func c09RaceScenarios(tier string) []*Scenario {
 		}
 		return sc
 	}
-	return []*Scenario{mk(false), mk(true)}
+	// X2: many goroutines make the first use of many tag sets that the sanitizer rewrites, on a 16-shard registry
+	// (whatever Subscope locks, it must not wait for a second shard while holding one): everything recorded is
+	// delivered; a hang is caught by the pass's watchdog
+	x2 := &Scenario{Property: "C09", Name: "X2-first-use-of-rewritten-tags-16-shards"}
+	x2.Body = func(x *Run) {
+		rec := &Recorder{NoPoints: true}
+		alnum := tally.ValidCharacters{Ranges: tally.AlphanumericRange, Characters: tally.UnderscoreCharacters}
+		o := scopeOpts(rec, false, false)
+		o.SanitizeOptions = &tally.SanitizeOptions{NameCharacters: alnum, KeyCharacters: alnum, ValueCharacters: alnum, ReplacementCharacter: '_'}
+		root, _ := tally.VerifNewRootScope(o, 0, 16)
+		const nG, nT = 8, 120
+		gate := newGate(nG)
+		var ths []*rt.Thread
+		for g := 0; g < nG; g++ {
+			g := g
+			ths = append(ths, rt.GoNamed("user", func() {
+				gate()
+				for i := 0; i < nT; i++ {
+					k := (i*7 + g*13) % nT
+					root.Tagged(map[string]string{"dc-name": fmt.Sprintf("eu-west-%d", k)}).Counter("c").Inc(1)
+				}
+			}))
+		}
+		for _, t := range ths {
+			t.Join()
+		}
+		tally.VerifReportOnce(root)
+		rec.mu.Lock()
+		got := sumCounters(rec.Log, 0, len(rec.Log))
+		rec.mu.Unlock()
+		for k := 0; k < nT; k++ {
+			id := "c" + tagString(map[string]string{"dc_name": fmt.Sprintf("eu_west_%d", k)})
+			if got[id] != nG {
+				x.failf("sum-mismatch", "tag set %d of %d, first used by %d goroutines at once on a sanitizing 16-shard root: %d delivered, %d recorded", k, nT, nG, got[id], nG)
+				return
+			}
+		}
+	}
+	return []*Scenario{mk(false), mk(true), x2}
 }
